@@ -252,6 +252,45 @@ ll E() { return vf::tier<ll>(4, 5); }
 std::uint64_t g_item = 0; // enumeration index for the partition filter
 bool my_item() { return vf::mine(g_item++); }
 
+// Callbacks handed to the library count their invocations.  A position range inside the library that does not
+// terminate (broken end test) would otherwise call them forever; the budget turns that into a classified
+// violation ".../runaway" instead of a hang that eats memory.  This is the only try/catch in the harness.
+struct runaway_error
+{
+};
+std::size_t g_budget = ~std::size_t{0};
+inline void tick()
+{
+  if (g_budget == 0)
+    throw runaway_error{};
+  --g_budget;
+}
+template <class F>
+bool guarded(std::string const &key, std::string const &what, std::size_t calls, F const &f)
+{
+  g_budget = calls + 600;
+  try
+  {
+    f();
+    g_budget = ~std::size_t{0};
+    return true;
+  }
+  catch (runaway_error const &)
+  {
+    g_budget = ~std::size_t{0};
+    vf::violation(key + "/runaway", "mismatch",
+                  what + ": the callback was invoked more than " + std::to_string(calls + 600) + " times where " + std::to_string(calls) + " cells exist (the iteration inside the library does not terminate)");
+    return false;
+  }
+}
+template <std::size_t N>
+std::size_t cells(P<N> const &s)
+{
+  std::size_t n = 0;
+  for_box(all<N>(0), s, [&n](P<N> const &) { ++n; });
+  return n;
+}
+
 void surprise(std::string const &what)
 {
   vf::count("observed/surprises");
@@ -611,10 +650,18 @@ bool check_grid(std::string const &key, std::string const &what, Grid const &g, 
 constexpr std::uint32_t tag_a = 1, tag_b = 2, tag_init = 3, tag_fill = 4;
 
 template <std::size_t N>
-fg::object<cell, N> make_grid(P<N> const &s, std::uint32_t tag)
+fcppt::optional::object<fg::object<cell, N>> make_grid(P<N> const &s, std::uint32_t tag)
 {
   using G = fg::object<cell, N>;
-  return G(to_dim<std::size_t, N>(s), [tag](typename G::pos const &p) { return cell{code<N>(from_vec<N>(p)), tag}; });
+  G g;
+  if (!guarded("object/N=" + std::to_string(N) + "/ctor-function", "object(size=" + show(s) + ", function)", cells(s), [&] {
+        g = G(to_dim<std::size_t, N>(s), [tag](typename G::pos const &p) {
+          tick();
+          return cell{code<N>(from_vec<N>(p)), tag};
+        });
+      }))
+    return fcppt::optional::object<G>{};
+  return fcppt::optional::object<G>{std::move(g)};
 }
 
 // ------------------------------------------------------------------ object: construction, storage order, at_optional
@@ -640,10 +687,15 @@ void object_entry()
     else
       VF_COUNT("object/nonempty");
     std::vector<P<N>> calls;
-    G g(to_dim<std::size_t, N>(s), [&calls](typename G::pos const &p) {
-      calls.push_back(from_vec<N>(p));
-      return cell{code<N>(from_vec<N>(p)), tag_a};
-    });
+    G g;
+    if (!guarded(e + "/ctor-function", "object(size=" + show(s) + ", function)", ps.size(), [&] {
+          g = G(to_dim<std::size_t, N>(s), [&calls](typename G::pos const &p) {
+            tick();
+            calls.push_back(from_vec<N>(p));
+            return cell{code<N>(from_vec<N>(p)), tag_a};
+          });
+        }))
+      continue;
     // "Calls function for every position in the grid" - set and multiplicity judged, order observed
     judge_visit<N>(e + "/ctor-function-calls", "object<N=" + std::to_string(N) + ">(size=" + show(s) + ", function)", calls, ps, false, false);
     check_grid<N>(e + "/ctor-function", "object(size, function)", g, s, [](P<N> const &p) { return cell{code<N>(p), tag_a}; });
@@ -812,7 +864,10 @@ void pos_ref_range_entry()
         continue;
       vf::sample_case(1);
       vf::note_distinct(hp(mn, hp(s, vf::hash_str(e))));
-      G g = make_grid<N>(s, tag_a);
+      auto og = make_grid<N>(s, tag_a);
+      if (!og.has_value())
+        continue;
+      G &g = og.get_unsafe();
       std::uint32_t stamp = 100;
       for_box(all<N>(0), s1, [&](P<N> const &sp) {
         vf::operands(enc(mn), enc(sp));
@@ -825,7 +880,10 @@ void pos_ref_range_entry()
       continue;
     if (!vf::begin_case("size=%s make_pos_ref_range / make_pos_ref_crange of the whole grid", show(s).c_str()))
       continue;
-    G g = make_grid<N>(s, tag_a);
+    auto og = make_grid<N>(s, tag_a);
+    if (!og.has_value())
+      continue;
+    G &g = og.get_unsafe();
     cell *const base = ps.empty() ? nullptr : &*g.begin();
     for (int c = 0; c < 2; ++c)
     {
@@ -1079,7 +1137,10 @@ void clamped_range_entry()
   for (P<N> const &s : box<N>(all<N>(0), all<N>(E() + 1)))
   {
     ++sidx;
-    G const g = make_grid<N>(s, tag_a);
+    auto const og = make_grid<N>(s, tag_a);
+    if (!og.has_value())
+      continue;
+    G const &g = og.get_unsafe();
     std::vector<P<N>> const ps = box<N>(all<N>(0), s);
     std::map<P<N>, std::size_t> const index = index_map<N>(ps);
     clamped_ctx<N> const ctx{e, g, s, index, ps.empty() ? nullptr : &*g.begin()};
@@ -1131,7 +1192,8 @@ std::string code_str(P<N> const &p, char const *prefix)
 template <std::size_t N>
 void fill_map_apply_entry()
 {
-  std::string const e = "fill_map_apply/N=" + std::to_string(N);
+  std::string const ns = "N=" + std::to_string(N);
+  std::string const e = "fill_map_apply/" + ns;
   if (!vf::entry_enabled(e))
     return;
   vf::set_entry(e);
@@ -1148,43 +1210,95 @@ void fill_map_apply_entry()
       continue;
     vf::sample_case(1);
     vf::note_distinct(hp(s, vf::hash_str(e)));
-    bool const zero = box<N>(all<N>(0), s).empty();
-    vf::count(zero ? "fill_map_apply/zero-extent" : "fill_map_apply/nonempty");
+    std::size_t const n = cells(s);
+    vf::count(n == 0 ? "fill_map_apply/zero-extent" : "fill_map_apply/nonempty");
     auto const dim = to_dim<std::size_t, N>(s);
+    std::string const sz = "size=" + show(s);
     // fill: "Fills a grid using a function" T(pos): every cell holds function(its position)
     {
       G g(dim, cell{0U, tag_b});
-      fg::fill(g, [](typename G::pos const &p) { return cell{code<N>(from_vec<N>(p)) ^ 0x555U, tag_fill}; });
-      check_grid<N>("fill/N=" + std::to_string(N), "fill(size=" + show(s) + ")", g, s, [](P<N> const &p) { return cell{code<N>(p) ^ 0x555U, tag_fill}; });
+      if (guarded("fill/" + ns, "fill(" + sz + ")", n, [&] {
+            fg::fill(g, [](typename G::pos const &p) {
+              tick();
+              return cell{code<N>(from_vec<N>(p)) ^ 0x555U, tag_fill};
+            });
+          }))
+        check_grid<N>("fill/" + ns, "fill(" + sz + ")", g, s, [](P<N> const &p) { return cell{code<N>(p) ^ 0x555U, tag_fill}; });
       vf::add_evals(1);
     }
-    G const g1 = make_grid<N>(s, tag_a);
-    G64 const g2(dim, [](typename G64::pos const &p) { return std::uint64_t{1000U} + code<N>(from_vec<N>(p)) * 3U; });
-    GS const g3(dim, [](typename GS::pos const &p) { return code_str<N>(from_vec<N>(p), "s"); });
+    auto const og1 = make_grid<N>(s, tag_a);
+    if (!og1.has_value())
+      continue;
+    G const &g1 = og1.get_unsafe();
+    G64 g2;
+    GS g3;
+    if (!guarded("object/" + ns + "/ctor-function", "object(" + sz + ", function)", 2 * n, [&] {
+          g2 = G64(dim, [](typename G64::pos const &p) {
+            tick();
+            return std::uint64_t{1000U} + code<N>(from_vec<N>(p)) * 3U;
+          });
+          g3 = GS(dim, [](typename GS::pos const &p) {
+            tick();
+            return code_str<N>(from_vec<N>(p), "s");
+          });
+        }))
+      continue;
     auto v2 = [](P<N> const &p) { return std::uint64_t{1000U} + code<N>(p) * 3U; };
     // map: result[p] = function(source[p]), same size
     {
-      auto const r = fg::map(g1, [](cell const &c) { return std::uint64_t{c.code} * 7U + c.tag; });
-      static_assert(std::is_same_v<std::remove_cvref_t<decltype(r)>, G64>);
-      check_grid<N>("map/N=" + std::to_string(N) + "/lvalue", "map(size=" + show(s) + ")", r, s, [](P<N> const &p) { return std::uint64_t{code<N>(p)} * 7U + tag_a; });
+      G64 r;
+      if (guarded("map/" + ns + "/lvalue", "map(" + sz + ")", n, [&] {
+            r = fg::map(g1, [](cell const &c) {
+              tick();
+              return std::uint64_t{c.code} * 7U + c.tag;
+            });
+          }))
+        check_grid<N>("map/" + ns + "/lvalue", "map(" + sz + ")", r, s, [](P<N> const &p) { return std::uint64_t{code<N>(p)} * 7U + tag_a; });
       GS src = g3;
-      auto const rs = fg::map(std::move(src), [](std::string &&v) { return std::string(std::move(v)) + "!"; });
-      check_grid<N>("map/N=" + std::to_string(N) + "/rvalue", "map(rvalue, size=" + show(s) + ")", rs, s, [](P<N> const &p) { return code_str<N>(p, "s") + "!"; });
+      GS rs;
+      if (guarded("map/" + ns + "/rvalue", "map(rvalue, " + sz + ")", n, [&] {
+            rs = fg::map(std::move(src), [](std::string &&v) {
+              tick();
+              return std::string(std::move(v)) + "!";
+            });
+          }))
+        check_grid<N>("map/" + ns + "/rvalue", "map(rvalue, " + sz + ")", rs, s, [](P<N> const &p) { return code_str<N>(p, "s") + "!"; });
       vf::add_evals(2);
     }
     // apply, equal sizes
     {
-      auto const r1 = fg::apply([](cell const &c) { return std::uint64_t{c.code} + 1U; }, g1);
-      check_grid<N>("apply/N=" + std::to_string(N) + "/1-grid", "apply(f, g1) size=" + show(s), r1, s, [](P<N> const &p) { return std::uint64_t{code<N>(p)} + 1U; });
-      auto const r2 = fg::apply([](cell const &c, std::uint64_t v) { return std::uint64_t{c.code} * 1000003U + v; }, g1, g2);
-      check_grid<N>("apply/N=" + std::to_string(N) + "/2-grids", "apply(f, g1, g2) size=" + show(s), r2, s, [&v2](P<N> const &p) { return std::uint64_t{code<N>(p)} * 1000003U + v2(p); });
+      G64 r1, r2;
+      GS r3;
+      if (guarded("apply/" + ns + "/1-grid", "apply(f, g1) " + sz, n, [&] {
+            r1 = fg::apply(
+                [](cell const &c) {
+                  tick();
+                  return std::uint64_t{c.code} + 1U;
+                },
+                g1);
+          }))
+        check_grid<N>("apply/" + ns + "/1-grid", "apply(f, g1) " + sz, r1, s, [](P<N> const &p) { return std::uint64_t{code<N>(p)} + 1U; });
+      if (guarded("apply/" + ns + "/2-grids", "apply(f, g1, g2) " + sz, n, [&] {
+            r2 = fg::apply(
+                [](cell const &c, std::uint64_t v) {
+                  tick();
+                  return std::uint64_t{c.code} * 1000003U + v;
+                },
+                g1, g2);
+          }))
+        check_grid<N>("apply/" + ns + "/2-grids", "apply(f, g1, g2) " + sz, r2, s, [&v2](P<N> const &p) { return std::uint64_t{code<N>(p)} * 1000003U + v2(p); });
       GS g3m = g3;
-      auto const r3 = fg::apply(
-          [](cell const &c, std::uint64_t v, std::string &&t) { return std::string(std::move(t)) + ":" + std::to_string(c.code) + ":" + std::to_string(v); },
-          g1, g2, std::move(g3m));
-      check_grid<N>("apply/N=" + std::to_string(N) + "/3-grids", "apply(f, g1, g2, rvalue g3) size=" + show(s), r3, s, [&v2](P<N> const &p) {
-        return code_str<N>(p, "s") + ":" + std::to_string(code<N>(p)) + ":" + std::to_string(v2(p));
-      });
+      if (guarded("apply/" + ns + "/3-grids", "apply(f, g1, g2, rvalue g3) " + sz, n, [&] {
+            r3 = fg::apply(
+                [](cell const &c, std::uint64_t v, std::string &&t) {
+                  tick();
+                  return std::string(std::move(t)) + ":" + std::to_string(c.code) + ":" + std::to_string(v);
+                },
+                g1, g2, std::move(g3m));
+          }))
+        check_grid<N>("apply/" + ns + "/3-grids", "apply(f, g1, g2, rvalue g3) " + sz, r3, s, [&v2](P<N> const &p) {
+          return code_str<N>(p, "s") + ":" + std::to_string(code<N>(p)) + ":" + std::to_string(v2(p));
+        });
       vf::add_evals(3);
       VF_COUNT("apply/equal-sizes");
     }
@@ -1212,21 +1326,40 @@ void fill_map_apply_entry()
           continue;
         vf::operands(enc(s), enc(t));
         vf::add_evals(3);
-        bool same_content = box<N>(all<N>(0), t).size() == box<N>(all<N>(0), s).size();
-        vf::count(same_content ? "apply/unequal-sizes-same-content" : "apply/unequal-sizes");
+        vf::count(cells(t) == n ? "apply/unequal-sizes-same-content" : "apply/unequal-sizes");
         G64 const o(to_dim<std::size_t, N>(t), std::uint64_t{5});
-        std::string const k = "apply/N=" + std::to_string(N) + "/unequal-sizes";
-        std::string const w = "apply(f, g1 size=" + show(s) + ", g2 size=" + show(t) + ")";
-        auto f2 = [](cell const &c, std::uint64_t v) { return std::uint64_t{c.code} + v; };
-        auto f2r = [](std::uint64_t v, cell const &c) { return std::uint64_t{c.code} + v; };
-        auto f3 = [](cell const &c, std::uint64_t v, std::uint64_t v3) { return std::uint64_t{c.code} + v + v3; };
-        auto const r = fg::apply(f2, g1, o);
-        check_grid<N>(k, w, r, all<N>(0), [](P<N> const &) { return std::uint64_t{0}; });
-        auto const rr = fg::apply(f2r, o, g1);
-        check_grid<N>(k, w + " swapped", rr, all<N>(0), [](P<N> const &) { return std::uint64_t{0}; });
+        std::string const k = "apply/" + ns + "/unequal-sizes";
+        std::string const w = "apply(f, g1 " + sz + ", g2 size=" + show(t) + ")";
+        // the function must not be called at all; a call could read outside the smaller grid
+        bool called = false;
+        auto f2 = [&called](cell const &c, std::uint64_t v) {
+          called = true;
+          tick();
+          return std::uint64_t{c.code} + v;
+        };
+        auto f2r = [&called](std::uint64_t v, cell const &c) {
+          called = true;
+          tick();
+          return std::uint64_t{c.code} + v;
+        };
+        auto f3 = [&called](cell const &c, std::uint64_t v, std::uint64_t v3) {
+          called = true;
+          tick();
+          return std::uint64_t{c.code} + v + v3;
+        };
+        G64 r, rr, r3;
+        if (guarded(k, w, n, [&] { r = fg::apply(f2, g1, o); }))
+          check_grid<N>(k, w, r, all<N>(0), [](P<N> const &) { return std::uint64_t{0}; });
+        if (guarded(k, w + " swapped", n, [&] { rr = fg::apply(f2r, o, g1); }))
+          check_grid<N>(k, w + " swapped", rr, all<N>(0), [](P<N> const &) { return std::uint64_t{0}; });
         // the odd one out in last position, the first two equal
-        auto const r3 = fg::apply(f3, g1, g2, o);
-        check_grid<N>(k + "/third", w + " third grid differs", r3, all<N>(0), [](P<N> const &) { return std::uint64_t{0}; });
+        if (guarded(k + "/third", w + " third grid differs", n, [&] { r3 = fg::apply(f3, g1, g2, o); }))
+          check_grid<N>(k + "/third", w + " third grid differs", r3, all<N>(0), [](P<N> const &) { return std::uint64_t{0}; });
+        if (called)
+        {
+          VF_COUNT("observed/apply/function-called-for-unequal-sizes");
+          surprise(w + " calls the function although the sizes differ");
+        }
       }
     }
   }
@@ -1243,63 +1376,78 @@ void resize_entry()
   using G = fg::object<cell, N>;
   using GS = fg::object<std::string, N>;
   std::vector<P<N>> const sizes = box<N>(all<N>(0), all<N>(E() + 1));
-  bool const sampled = N == 3 && !vf::thorough();
   for (std::size_t si = 0; si < sizes.size(); ++si)
   {
     P<N> const &s = sizes[si];
     if (!my_item())
       continue;
-    std::vector<P<N>> targets;
-    if (!sampled)
-      targets = sizes;
-    else
-    {
-      vf::rng r(vf::seed_for(e, si));
-      for (P<N> const &t : sizes)
-        if (r.chance(1, 6) || t == s)
-          targets.push_back(t);
-    }
-    if (!vf::begin_case("old size=%s new size=%s", show(s).c_str(), sampled ? (std::to_string(targets.size()) + " seeded sizes").c_str() : "every size"))
+    if (!vf::begin_case("old size=%s new size=every size with extents in [0,%lld]", show(s).c_str(), E()))
       continue;
     vf::sample_case(1);
-    vf::add_evals(2 * targets.size() - 1);
-    G const g = make_grid<N>(s, tag_a);
-    GS const gs(to_dim<std::size_t, N>(s), [](typename GS::pos const &p) { return code_str<N>(from_vec<N>(p), "old"); });
-    std::uint64_t h = hp(s, vf::hash_str(e));
-    for (P<N> const &t : targets)
+    vf::add_evals(2 * sizes.size() - 1);
+    vf::note_distinct(hp(s, vf::hash_str(e)));
+    auto const og = make_grid<N>(s, tag_a);
+    if (!og.has_value())
+      continue;
+    G const &g = og.get_unsafe();
+    GS gs;
+    if (!guarded("object/N=" + std::to_string(N) + "/ctor-function", "object(size=" + show(s) + ", function)", cells(s), [&] {
+          gs = GS(to_dim<std::size_t, N>(s), [](typename GS::pos const &p) {
+            tick();
+            return code_str<N>(from_vec<N>(p), "old");
+          });
+        }))
+      continue;
+    for (P<N> const &t : sizes)
     {
       vf::operands(enc(s), enc(t));
-      h = hp(t, h);
       bool grow = false, shrink = false;
       for (std::size_t i = 0; i < N; ++i)
       {
         grow = grow || t[i] > s[i];
         shrink = shrink || t[i] < s[i];
       }
-      vf::count(grow && shrink ? "resize/mixed" : grow ? "resize/grow" : shrink ? "resize/shrink" : "resize/same-size");
+      if (grow && shrink)
+        VF_COUNT("resize/mixed");
+      else if (grow)
+        VF_COUNT("resize/grow");
+      else if (shrink)
+        VF_COUNT("resize/shrink");
+      else
+        VF_COUNT("resize/same-size");
       std::size_t kept = 0, fresh = 0;
       for_box(all<N>(0), t, [&](P<N> const &p) { ++(inside(p, all<N>(0), s) ? kept : fresh); });
-      vf::count("resize/cells-kept", kept);
-      vf::count("resize/cells-init", fresh);
-      std::string const w = "resize(old size=" + show(s) + ", new size=" + show(t) + ")";
+      static vf::counter c_kept("resize/cells-kept"), c_fresh("resize/cells-init");
+      c_kept += kept;
+      c_fresh += fresh;
+      auto const w = [&] { return "resize(old size=" + show(s) + ", new size=" + show(t) + ")"; };
       std::vector<P<N>> init_calls;
-      G const r = fg::resize(g, to_dim<std::size_t, N>(t), [&init_calls](typename G::pos const &p) {
-        init_calls.push_back(from_vec<N>(p));
-        return cell{code<N>(from_vec<N>(p)), tag_init};
-      });
-      check_grid<N>(e + "/lvalue", w, r, t, [&s](P<N> const &p) { return cell{code<N>(p), inside(p, all<N>(0), s) ? tag_a : tag_init}; });
+      G r;
+      if (guarded(e + "/lvalue", w(), fresh, [&] {
+            r = fg::resize(g, to_dim<std::size_t, N>(t), [&init_calls](typename G::pos const &p) {
+              tick();
+              init_calls.push_back(from_vec<N>(p));
+              return cell{code<N>(from_vec<N>(p)), tag_init};
+            });
+          }))
+        check_grid<N>(e + "/lvalue", w(), r, t, [&s](P<N> const &p) { return cell{code<N>(p), inside(p, all<N>(0), s) ? tag_a : tag_init}; });
       for (P<N> const &p : init_calls)
         if (inside(p, all<N>(0), s) && inside(p, all<N>(0), t))
         {
           VF_COUNT("observed/resize/init-called-for-kept-cell");
-          surprise(w + " calls init for a position that exists in the old grid");
+          surprise(w() + " calls init for a position that exists in the old grid");
           break;
         }
       GS src = gs;
-      GS const rs = fg::resize(std::move(src), to_dim<std::size_t, N>(t), [](typename GS::pos const &p) { return code_str<N>(from_vec<N>(p), "new"); });
-      check_grid<N>(e + "/rvalue", w + " rvalue", rs, t, [&s](P<N> const &p) { return code_str<N>(p, inside(p, all<N>(0), s) ? "old" : "new"); });
+      GS rs;
+      if (guarded(e + "/rvalue", w() + " rvalue", fresh, [&] {
+            rs = fg::resize(std::move(src), to_dim<std::size_t, N>(t), [](typename GS::pos const &p) {
+              tick();
+              return code_str<N>(from_vec<N>(p), "new");
+            });
+          }))
+        check_grid<N>(e + "/rvalue", w() + " rvalue", rs, t, [&s](P<N> const &p) { return code_str<N>(p, inside(p, all<N>(0), s) ? "old" : "new"); });
     }
-    vf::note_distinct(h);
   }
 }
 
